@@ -404,13 +404,9 @@ where
             Entry::Vacant(e) => {
                 e.insert((primitive, r.gen));
             }
-            Entry::Occupied(mut e) => match (e.get_mut(), primitive) {
-                ((Primitive::Dictionary(ref mut dict), _), Primitive::Dictionary(new)) => {
-                    dict.append(new);
-                }
-                (old, new) => {
-                    *old = (new, r.gen);
-                }
+            Entry::Occupied(mut e) => {
+                // the last value written replaces the pending one, whatever their kinds
+                *e.get_mut() = (primitive, r.gen);
             }
         }
         // typed objects and decoded stream data loaded from the old value must not be served again
